@@ -48,6 +48,19 @@ Theorem C15_save_completes : forall (tmp target : path) (chunks : list bytes) (d
 Proof. intros tmp target chunks d0 N. exact (save_completes tmp target N chunks d0). Qed.
 Print Assumptions C15_save_completes.
 
+(* One of the calls of the save fails (OSError from open / write / flush / fsync / os.replace):
+   that call and everything after it is not carried out, the `with` block closes the temporary
+   file, save() raises.  At every crash point of THAT run - and at its end - the storage file is
+   still exactly the old or exactly the new content.  (An error path that opens the storage
+   file itself to copy the data over is not this op list; C15_inplace_refuted says what a
+   truncating open of the storage path costs.) *)
+Theorem C15_failed_save_atomic : forall (tmp target : path) (chunks : list bytes) (d0 c : fs) (f : nat),
+  tmp <> target ->
+  In c (crash_states (fault_ops tmp d0 f (save_ops tmp target chunks)) (init d0)) ->
+  lookup target c = lookup target d0 \/ lookup target c = Some (concat chunks).
+Proof. intros tmp target chunks d0 c f N. exact (failed_save_atomic tmp target N chunks d0 f c). Qed.
+Print Assumptions C15_failed_save_atomic.
+
 (* Any number of saves in a row, crash anywhere: the storage file holds the initial
    content or the complete content of one of the saves. *)
 Theorem C15_repeated_saves : forall (tmp target : path) (css : list (list bytes)) (d0 c : fs),
@@ -145,3 +158,9 @@ Example C15_ex_notrunc_mixture :
   = Some {| disk := [(0, [66; 10]%N)]; bufs := []; tails := [(0, [65; 65; 65; 65; 10]%N)] |}
   /\ In [(0, [66; 10; 65; 65; 10]%N)] (crash_states (notrunc_ops 1 0 [[66; 10]%N]) (init [(0, [111]%N); (1, [65; 65; 65; 65; 10]%N)])).
 Proof. vm_compute. intuition. Qed.
+
+Example C15_ex_fault_ops :
+  fault_ops 1 [] 2 (save_ops 1 0 [[110]%N]) = [OpenTrunc 1; Write 1 [110]%N; Close 1]
+  /\ fault_ops 1 [] 5 (save_ops 1 0 [[110]%N]) = [OpenTrunc 1; Write 1 [110]%N; Flush 1; Fsync 1; Close 1]
+  /\ fault_ops 1 [] 0 (save_ops 1 0 [[110]%N]) = [].
+Proof. vm_compute. repeat split. Qed.
